@@ -26,9 +26,23 @@ operations and without calling the dispatcher, has seen the systems' own complet
 (label `observe`; it leaves the control state alone — a job that finishes unobserved keeps
 its message in the mailbox, and whichever operation comes next, blocking or not, finds it).
 
-Not modelled: a panic inside the job (rayon's `spawn` aborts the process; then `recv`
-would report "Sender dropped"), `Option::unwrap` of the pool (always `Some` after
-`build_async`, builder.rs l.437-440).
+**Panics.** (a) A system that panics inside the job (on a pool with a `panic_handler`; without
+one rayon's `spawn` aborts the process): the panic unwinds `stage.execute` — rayon's `for_each`
+first lets the groups that have started come to their end —, leaves the stage loop and drops
+the closure's captures, `snd` among them, without `send`. The job is then `failed … gone`; `Data`
+stays `Rx` for ever, and every method that looks at the channel — all nine: `inner()` in
+`dispatch` (via `sender()`), `wait`, `wait_without_tl`, `world`, `res`, `world_mut`, `mut_res`,
+`setup`, and `inner_noblock()` in `running` — panics with "Sender dropped" (l.149, l.170): label
+`raise`, event `unwound op`. While the job is still unwinding `try_recv` is `Empty`
+(`running()` = true) and `recv` blocks. (b) A thread-local system that panics inside `wait`
+(l.87-89) unwinds through `wait`: the remaining thread-local systems of that `wait` do not run;
+`Data` is `Inner` and the list `self.thread_local` is untouched, so the dispatcher stays usable
+and the next `wait` runs all of them again. (c) `setup` (l.41-56): `inner()` (joins the running
+dispatch), then the setup hook of every system of every stage in stage / group order, then of
+every thread-local system (events `hook`).
+
+Not modelled: `Option::unwrap` of the pool (always `Some` after `build_async`, builder.rs
+l.437-440); what a setup hook does to the world (C13 / C06).
 
 Core Lean only (linked into the driver).
 -/
@@ -57,6 +71,17 @@ inductive AEv
   method of the dispatcher: every system that has been started has finished (the systems' own
   completion signal: the test harness counts the `run`s that have returned) -/
   | quiet
+  /-- ordinary system `x` of dispatch `d` was unwound by a panic (in `fetch` or in `run`) -/
+  | sysP (th : Th) (d : Nat) (x : Nat)
+  /-- thread-local system `x` was unwound by a panic -/
+  | tlP (th : Th) (x : Nat)
+  /-- the call of `op` ended by unwinding instead of returning -/
+  | unwound (op : AOp)
+  /-- `setup` called the setup hook of system `x` -/
+  | hook (th : Th) (x : Nat)
+  /-- an observation made by the environment between two operations: the pool's panic handler
+  has been called for the job (the closure has been unwound, its sender is dropped) -/
+  | gone
 deriving DecidableEq, Repr
 
 /-- what a dispatcher built by `build_async` holds: the task of its stages (`for stage in
@@ -77,6 +102,9 @@ inductive Job
   | idle
   | running (res : RTask Nat)
   | sent
+  /-- the systems `ps` have panicked; `gone = false`: the closure is still being unwound (systems
+  that had started may still finish), `gone = true`: the sender is dropped, nothing was sent -/
+  | failed (res : RTask Nat) (ps : List Nat) (gone : Bool)
 deriving Repr
 
 /-- where the calling thread is -/
@@ -93,6 +121,10 @@ inductive Caller
   | inTl (res : RTask Nat)
   /-- inside `running`, `inner_noblock().is_none()` evaluated to `v` -/
   | polled (v : Bool)
+  /-- inside `setup`, `inner()` has returned; the setup hooks of `rest` are still to be called -/
+  | inSetup (rest : List Nat)
+  /-- inside `wait`, a thread-local system has panicked: the frame is being unwound -/
+  | tlFailed
 deriving Repr
 
 structure Ctl where
@@ -118,6 +150,18 @@ inductive Lbl
   | send
   /-- the environment looks at the systems' own completion signal (no dispatcher method) -/
   | observe
+  /-- a system of the job panics (it is inside its F…D window) -/
+  | jobPanic (x : Nat)
+  /-- the unwinding of the closure is complete: `snd` is dropped -/
+  | die
+  /-- a thread-local system panics inside `wait` -/
+  | tlPanic (x : Nat)
+  /-- the current call unwinds: `expect("Sender dropped")`, or the thread-local panic leaves `wait` -/
+  | raise
+  /-- `setup` calls the next setup hook -/
+  | hookEv (x : Nat)
+  /-- the environment sees that the pool's panic handler has run -/
+  | observeGone
 deriving Repr
 
 /-- `Data::inner()` can return: `Data` is `Inner` already, or the job's message is in the mailbox -/
@@ -130,7 +174,22 @@ def available : Data → Job → Bool
 spawned, has sent, or has only its `send` left -/
 def Job.quiet : Job → Bool
   | .running r => r.nullable
+  | .failed _ _ _ => false
   | _ => true
+
+/-- the systems that are inside their F…D window -/
+def opens : RTask Nat → List Nat
+  | .closing s => [s]
+  | .seq a b => opens a ++ opens b
+  | .par a b => opens a ++ opens b
+  | .scopeOpen s body => s :: opens body
+  | _ => []
+
+/-- where the caller is once `inner()` has returned -/
+def afterAcquire (P : APlan) : AOp → Caller
+  | .wait => .inTl P.tlTask.toR
+  | .setup => .inSetup (P.job.sys ++ P.tl)
+  | op => .holding op
 
 /-- one transition: the new control state and the event it appends to the log, if any -/
 def step (P : APlan) (c : Ctl) : Lbl → Option (Ctl × Option AEv)
@@ -144,8 +203,7 @@ def step (P : APlan) (c : Ctl) : Lbl → Option (Ctl × Option AEv)
       if op = .running then none else
       -- `inner()` returns only when `Data` is `Inner`: at once, or after `recv` got the message
       if available c.data c.job then
-        some ({ c with data := .inner, job := .idle,
-                       caller := if op = .wait then .inTl P.tlTask.toR else .holding op }, none)
+        some ({ c with data := .inner, job := .idle, caller := afterAcquire P op }, none)
       else none
     | _ => none
   | .poll =>
@@ -154,6 +212,8 @@ def step (P : APlan) (c : Ctl) : Lbl → Option (Ctl × Option AEv)
       match c.data, c.job with
       | .inner, _ => some ({ c with caller := .polled false }, none)
       | .rx, .sent => some ({ c with data := .inner, job := .idle, caller := .polled false }, none)
+      -- `TryRecvError::Disconnected`: the call panics (label `raise`)
+      | .rx, .failed _ _ true => none
       | .rx, _ => some ({ c with caller := .polled true }, none)
     | _ => none
   | .spawn =>
@@ -168,6 +228,7 @@ def step (P : APlan) (c : Ctl) : Lbl → Option (Ctl × Option AEv)
     | .spawned => some ({ c with caller := .ready }, some (.ret .dispatch false))
     | .inTl r => if r.nullable then some ({ c with caller := .ready }, some (.ret .wait false)) else none
     | .polled v => some ({ c with caller := .ready }, some (.ret .running v))
+    | .inSetup [] => some ({ c with caller := .ready }, some (.ret .setup false))
     | _ => none
   | .tlEv e =>
     match c.caller with
@@ -182,6 +243,12 @@ def step (P : APlan) (c : Ctl) : Lbl → Option (Ctl × Option AEv)
       match r.deriv e with
       | some r' => some ({ c with job := .running r' }, some (.sys .worker (c.nDisp - 1) e))
       | none => none
+    -- what has started comes to its end; a panicked system has no D
+    | .failed r ps false =>
+      if ps.any (fun x => e = .D x) then none else
+      match r.deriv e with
+      | some r' => some ({ c with job := .failed r' ps false }, some (.sys .worker (c.nDisp - 1) e))
+      | none => none
     | _ => none
   | .send =>
     match c.job with
@@ -192,6 +259,45 @@ def step (P : APlan) (c : Ctl) : Lbl → Option (Ctl × Option AEv)
     -- a job that finished unobserved stays where it is until the next `inner()` / `inner_noblock()`)
     match c.caller with
     | .ready => if c.job.quiet then some (c, some .quiet) else none
+    | _ => none
+  | .jobPanic x =>
+    match c.job with
+    | .running r =>
+      if (opens r).contains x then
+        some ({ c with job := .failed r [x] false }, some (.sysP .worker (c.nDisp - 1) x))
+      else none
+    | .failed r ps false =>
+      if (opens r).contains x && !ps.contains x then
+        some ({ c with job := .failed r (x :: ps) false }, some (.sysP .worker (c.nDisp - 1) x))
+      else none
+    | _ => none
+  | .die =>
+    match c.job with
+    -- `for_each` returns (re-raises) only when every group that started has ended
+    | .failed r ps false => if (opens r).all ps.contains then some ({ c with job := .failed r ps true }, none) else none
+    | _ => none
+  | .tlPanic x =>
+    match c.caller with
+    | .inTl r => if (opens r).contains x then some ({ c with caller := .tlFailed }, some (.tlP .caller x)) else none
+    | _ => none
+  | .raise =>
+    match c.caller with
+    | .tlFailed => some ({ c with caller := .ready }, some (.unwound .wait))
+    | .called op =>
+      match c.data, c.job with
+      | .rx, .failed _ _ true => some ({ c with caller := .ready }, some (.unwound op))
+      | _, _ => none
+    | _ => none
+  | .hookEv x =>
+    match c.caller with
+    | .inSetup (y :: rest) => if x = y then some ({ c with caller := .inSetup rest }, some (.hook .caller x)) else none
+    | _ => none
+  | .observeGone =>
+    match c.caller with
+    | .ready =>
+      match c.job with
+      | .failed _ _ true => some (c, some .gone)
+      | _ => none
     | _ => none
 
 def optList {α} : Option α → List α
@@ -235,6 +341,19 @@ def feed (P : APlan) (c : Ctl) (o : AEv) : Option Ctl :=
       | _ => c
     visStep P c (.tlEv e) o
   | .quiet => visStep P c .observe o
+  | .sysP _ _ x => visStep P c (.jobPanic x) o
+  | .tlP _ x => visStep P c (.tlPanic x) o
+  | .unwound _ =>
+    let c := match c.caller with
+      | .called _ => tryStep P c .die
+      | _ => c
+    visStep P c .raise o
+  | .hook _ x =>
+    let c := match c.caller with
+      | .called .setup => tryStep P (tryStep P c .send) .acquire
+      | _ => c
+    visStep P c (.hookEv x) o
+  | .gone => visStep P (tryStep P c .die) .observeGone o
   | .sys _ _ e =>
     match visStep P c (.jobEv e) o with
     | some c' => some c'
@@ -255,7 +374,10 @@ def feedAll (P : APlan) : Ctl → List AEv → Option Ctl
 /-- a finished log: the caller is between operations and no system is inside `run` -/
 def Ctl.final (c : Ctl) : Bool :=
   (match c.caller with | .ready => true | _ => false) &&
-  (match c.job with | .running r => r.nullable | _ => true)
+  (match c.job with
+    | .running r => r.nullable
+    | .failed r ps g => g || (opens r).all ps.contains
+    | _ => true)
 
 def acceptsLog (P : APlan) (l : List AEv) : Bool :=
   match feedAll P {} l with
@@ -281,6 +403,7 @@ def pending : List AEv → Option AOp → Option AOp
   | [], p => p
   | .call op :: l, _ => pending l (some op)
   | .ret _ _ :: l, _ => pending l none
+  | .unwound _ :: l, _ => pending l none
   | _ :: l, p => pending l p
 
 /-- system `x` of dispatch `d` is inside its F…D window at the end of `l` -/
